@@ -53,13 +53,24 @@ Fixpoint pset (k : pkey) (o : N) (m : list (pkey * N)) : list (pkey * N) :=
   | (k', o') :: m' => if pk_eqb k' k then (k, o) :: m' else (k', o') :: pset k o m'
   end.
 
+(* VolumeLayout.crowded of every layout: (layout key, vid) pairs.  The code keeps
+   crowded a subset of writables: setVolumeCrowded only runs for a vid found in
+   writables and removeFromWritable also deletes the vid from crowded. *)
+Definition crowd := list (N * N).
+Definition cmem (k v : N) (cr : crowd) : bool := existsb (fun kv : N * N => (fst kv =? k) && (snd kv =? v)) cr.
+(* after a layout call that only removed from (or only added to) the writables of
+   layout k, leaving them as w: the crowded vids of k that left writables are gone *)
+Definition ckeep (k : N) (w : list N) (cr : crowd) : crowd :=
+  filter (fun kv : N * N => negb (fst kv =? k) || mem (snd kv) w) cr.
+
 Record mstate := {
   ms_objs : list (N * obj);        (* object id -> object; ids in creation order, never removed *)
   ms_slot : list (N * N);          (* stream id -> object id of the open stream *)
   ms_lays : list (N * layout);     (* layout key -> layout (absent = empty) *)
-  ms_ptr : list (pkey * N)
+  ms_ptr : list (pkey * N);
+  ms_crowd : crowd
 }.
-Definition minit : mstate := {| ms_objs := []; ms_slot := []; ms_lays := []; ms_ptr := [] |}.
+Definition minit : mstate := {| ms_objs := []; ms_slot := []; ms_lays := []; ms_ptr := []; ms_crowd := [] |}.
 
 Definition lay (ls : list (N * layout)) (k : N) : layout :=
   match aget k ls with Some l => l | None => empty_layout end.
@@ -101,25 +112,31 @@ Definition unlinked (ob : obj) : obj :=
   {| ob_addr := ob_addr ob; ob_rack := ob_rack ob; ob_linked := false; ob_vols := ob_vols ob; ob_keys := ob_keys ob |}.
 
 (* ---------- layout calls routed by key ---------- *)
-Definition lp := (list (N * layout) * list (pkey * N))%type.
+Definition lp := (list (N * layout) * list (pkey * N) * crowd)%type.
 
-(* Topology.RegisterVolumeLayout(v, dn) *)
+(* Topology.RegisterVolumeLayout(v, dn) = VolumeLayout.RegisterVolume (may remove
+   the vid from writables), then EnsureCorrectWritables (may put it back: it has
+   left crowded by then) *)
 Definition m_register (mc : mcfg) (os : list (N * obj)) (o : N) (x : lp) (a : minfo) : lp :=
-  let '(ls, ptr) := x in
+  let '(ls, ptr, cr) := x in
   let k := mi_key a in let v := vi_id (mi_vi a) in let n := ob_addr (oget os o) in
   let ptr' := pset (k, v, n) o ptr in
-  (aset k (register_layout (cfg_of mc k) (view os ptr' k v) (mi_vi a) n (lay ls k)) ls, ptr').
+  let l1 := register_volume (cfg_of mc k) (view os ptr' k v) (mi_vi a) n (lay ls k) in
+  let l2 := register_layout (cfg_of mc k) (view os ptr' k v) (mi_vi a) n (lay ls k) in
+  (aset k l2 ls, ptr', ckeep k (l_writ l2) (ckeep k (l_writ l1) cr)).
 
 (* Topology.UnRegisterVolumeLayout(v, dn): the layout named by v's own fields *)
 Definition m_unregister (mc : mcfg) (os : list (N * obj)) (o : N) (x : lp) (a : minfo) : lp :=
-  let '(ls, ptr) := x in
+  let '(ls, ptr, cr) := x in
   let k := mi_key a in let v := vi_id (mi_vi a) in let n := ob_addr (oget os o) in
-  (aset k (unregister_layout (cfg_of mc k) (view os ptr k v) v n (lay ls k)) ls, ptr).
+  let l' := unregister_layout (cfg_of mc k) (view os ptr k v) v n (lay ls k) in
+  (aset k l' ls, ptr, ckeep k (l_writ l') cr).
 
 Definition m_ensure (mc : mcfg) (os : list (N * obj)) (x : lp) (a : minfo) : lp :=
-  let '(ls, ptr) := x in
+  let '(ls, ptr, cr) := x in
   let k := mi_key a in let v := vi_id (mi_vi a) in
-  (aset k (ensure (cfg_of mc k) (view os ptr k v) v (lay ls k)) ls, ptr).
+  let l' := ensure (cfg_of mc k) (view os ptr k v) v (lay ls k) in
+  (aset k l' ls, ptr, ckeep k (l_writ l') cr).
 
 (* ---------- events ---------- *)
 Inductive mevent :=
@@ -130,7 +147,7 @@ Inductive mevent :=
 | MClose (s : N).                            (* stream s ends: UnRegisterDataNode(its object) *)
 
 Definition set_obj (o : N) (ob : obj) (s : mstate) (x : lp) : mstate :=
-  {| ms_objs := aset o ob (ms_objs s); ms_slot := ms_slot s; ms_lays := fst x; ms_ptr := snd x |}.
+  {| ms_objs := aset o ob (ms_objs s); ms_slot := ms_slot s; ms_lays := fst (fst x); ms_ptr := snd (fst x); ms_crowd := snd x |}.
 
 (* Rack.GetOrCreateDataNode: the linked child of rack r with this Ip:Port, else a new one *)
 Definition find_obj (os : list (N * obj)) (n r : N) : option N :=
@@ -141,11 +158,11 @@ Definition find_obj (os : list (N * obj)) (n r : N) : option N :=
 
 Definition m_connect (st n r : N) (s : mstate) : mstate :=
   match find_obj (ms_objs s) n r with
-  | Some o => {| ms_objs := ms_objs s; ms_slot := aset st o (ms_slot s); ms_lays := ms_lays s; ms_ptr := ms_ptr s |}
+  | Some o => {| ms_objs := ms_objs s; ms_slot := aset st o (ms_slot s); ms_lays := ms_lays s; ms_ptr := ms_ptr s; ms_crowd := ms_crowd s |}
   | None =>
       let o := N.of_nat (length (ms_objs s)) in
       {| ms_objs := ms_objs s ++ [(o, {| ob_addr := n; ob_rack := r; ob_linked := true; ob_vols := []; ob_keys := [] |})];
-         ms_slot := aset st o (ms_slot s); ms_lays := ms_lays s; ms_ptr := ms_ptr s |}
+         ms_slot := aset st o (ms_slot s); ms_lays := ms_lays s; ms_ptr := ms_ptr s; ms_crowd := ms_crowd s |}
   end.
 
 (* Topology.SyncDataNodeRegistration *)
@@ -156,7 +173,7 @@ Definition m_full (mc : mcfg) (o : N) (actual : list minfo) (s : mstate) : mstat
   let u := fold_left m_aou actual {| mu_vols := vs1; mu_keys := ob_keys ob; mu_new := []; mu_chg := [] |} in
   let ob' := with_vols ob (mu_vols u) (mu_keys u) in
   let os := aset o ob' (ms_objs s) in
-  let x1 := fold_left (m_register mc os o) (mu_new u) (ms_lays s, ms_ptr s) in
+  let x1 := fold_left (m_register mc os o) (mu_new u) (ms_lays s, ms_ptr s, ms_crowd s) in
   let x2 := fold_left (m_unregister mc os o) dels x1 in
   let x3 := fold_left (m_ensure mc os) (mu_chg u) x2 in
   set_obj o ob' s x3.
@@ -172,21 +189,38 @@ Definition m_incr (mc : mcfg) (o : N) (news dels : list (N * N)) (s : mstate) : 
   let u := fold_left m_aou nv {| mu_vols := vs1; mu_keys := ob_keys ob; mu_new := []; mu_chg := [] |} in
   let ob' := with_vols ob (mu_vols u) (mu_keys u) in
   let os := aset o ob' (ms_objs s) in
-  let x1 := fold_left (m_register mc os o) nv (ms_lays s, ms_ptr s) in
+  let x1 := fold_left (m_register mc os o) nv (ms_lays s, ms_ptr s, ms_crowd s) in
   let x2 := fold_left (m_unregister mc os o) dv x1 in
   set_obj o ob' s x2.
 
-(* the sweep walks the tree: linked objects only; SetVolumeCapacityFull goes to
-   the layout named by the STORED info *)
+(* NodeImpl.CollectDeadNodeAndFullVolumes, per volume v of every DataNode under a rack:
+       if v.Size >= volumeSizeLimit                                    -> chanFullVolumes
+       else if float64(v.Size) > float64(volumeSizeLimit)*growThreshold -> chanCrowdedVolumes
+   growThreshold is the master's 0.9: grow_num / grow_den, compared exactly
+   (size * 10 > limit * 9). *)
+Definition grow_num : N := 9.
+Definition grow_den : N := 10.
+Definition is_full (mc : mcfg) (sz : N) : bool := mc_limit mc <=? sz.            (* v.Size >= volumeSizeLimit *)
+Definition is_crowded (mc : mcfg) (sz : N) : bool :=
+  negb (is_full mc sz) && (mc_limit mc * grow_num <? sz * grow_den).              (* else if size > limit*0.9 *)
+
+(* the sweep walks the tree: linked objects only; SetVolumeCapacityFull /
+   SetVolumeCrowded go to the layout named by the STORED info.  Within one sweep
+   writables only shrink, SetVolumeCrowded adds a vid only while it is in
+   writables and removeFromWritable deletes it from crowded: whatever the order
+   in which the volumes are visited, crowded ends as (old + reported crowded)
+   restricted to the final writables. *)
 Definition m_collect (mc : mcfg) (s : mstate) : mstate :=
-  let full := flat_map (fun p : N * obj =>
+  let sel (f : N -> bool) := flat_map (fun p : N * obj =>
                  if ob_linked (snd p)
                  then map (fun q => (key_of (snd p) (fst q), fst q))
-                          (filter (fun q : N * vinfo => mc_limit mc <=? vi_size (snd q)) (ob_vols (snd p)))
+                          (filter (fun q : N * vinfo => f (vi_size (snd q))) (ob_vols (snd p)))
                  else []) (ms_objs s) in
-  {| ms_objs := ms_objs s; ms_slot := ms_slot s;
-     ms_lays := fold_left (fun ls kv => aset (fst kv) (set_capacity_full (snd kv) (lay ls (fst kv))) ls) full (ms_lays s);
-     ms_ptr := ms_ptr s |}.
+  let full := sel (is_full mc) in
+  let ls := fold_left (fun ls kv => aset (fst kv) (set_capacity_full (snd kv) (lay ls (fst kv))) ls) full (ms_lays s) in
+  let cr := fold_left (fun cr kv => if cmem (fst kv) (snd kv) cr then cr else cr ++ [kv]) (sel (is_crowded mc)) (ms_crowd s) in
+  {| ms_objs := ms_objs s; ms_slot := ms_slot s; ms_lays := ls; ms_ptr := ms_ptr s;
+     ms_crowd := filter (fun kv : N * N => mem (snd kv) (l_writ (lay ls (fst kv)))) cr |}.
 
 (* Topology.UnRegisterDataNode(dn): SetVolumeUnavailable in the layout of every
    STORED info, then unlink; the object keeps its volumes *)
@@ -199,7 +233,9 @@ Definition m_close (mc : mcfg) (st : N) (s : mstate) : mstate :=
                              let k := key_of ob (fst q) in
                              aset k (set_unavailable (cfg_of mc k) (ob_addr ob) (fst q) (lay ls k)) ls)
                           (ob_vols ob) (ms_lays s) in
-      {| ms_objs := aset o (unlinked ob) (ms_objs s); ms_slot := adel st (ms_slot s); ms_lays := ls; ms_ptr := ms_ptr s |}
+      (* SetVolumeUnavailable only removes from writables *)
+      {| ms_objs := aset o (unlinked ob) (ms_objs s); ms_slot := adel st (ms_slot s); ms_lays := ls; ms_ptr := ms_ptr s;
+         ms_crowd := filter (fun kv : N * N => mem (snd kv) (l_writ (lay ls (fst kv)))) (ms_crowd s) |}
   end.
 
 Definition mstep (mc : mcfg) (s : mstate) (e : mevent) : mstate :=
@@ -231,6 +267,9 @@ Definition mlookup (s : mstate) (v : N) : option (list N) :=
   | _ => None
   end.
 Definition mwritable (s : mstate) (k v : N) : bool := mem v (l_writ (lay (ms_lays s) k)).
+(* VolumeLayout.crowded of layout k *)
+Definition mcrowded (s : mstate) (k : N) : list N :=
+  map snd (filter (fun kv : N * N => fst kv =? k) (ms_crowd s)).
 
 (* VolumeLayout.PickForWrite with a DataCenter (+ Rack) option dereferences
    dn.GetDataCenter() of every location of every writable vid: it panics when
@@ -426,3 +465,41 @@ Definition reports_full_v (c : cfg) (v : N) (e : event) : bool :=
   | _ => false
   end.
 Definition trigger_size_v (c : cfg) (es : list event) (v : N) : bool := existsb (reports_full_v c v) es.
+
+(* ---------- single-layout form: the sizes the servers last REPORTED ----------
+   (the single-layout counterpart of [truth]: node -> vid -> last reported size;
+   an incremental "new" message carries no size: for a volume already reported
+   the last full report stays the reference, for an unknown one the size is 0) *)
+Definition srep := list (N * list (N * N)).
+Definition srep_of (r : srep) (n : N) : list (N * N) := match aget n r with Some x => x | None => [] end.
+Definition srstep (r : srep) (e : event) : srep :=
+  match e with
+  | EFull n vs => aset n (fold_left (fun m a => aset (vi_id a) (vi_size a) m) vs []) r
+  | EIncr n news dels =>
+      let m1 := fold_left (fun m d => adel d m) dels (srep_of r n) in
+      let m2 := fold_left (fun m a => match aget a m with Some _ => m | None => aset a 0 m end) news m1 in
+      aset n m2 r
+  | ECollect => r
+  | EDisconnect n => adel n r
+  end.
+Definition sreported (es : list event) : srep := fold_left srstep es [].
+Definition rsize (r : srep) (n v : N) : option N := aget v (srep_of r n).
+
+(* finding 3 in its size form, per (node, vid): an incremental "new" message of
+   node n names v while n's last reported size of v is at or over the limit (the
+   registered size becomes 0); it ends with n's next full heartbeat or disconnect *)
+Definition cl_step (c : cfg) (v : N) (r : srep) (cl : list N) (e : event) : list N :=
+  match e with
+  | EIncr n news _ =>
+      if mem v news && match rsize r n v with Some sz => c_limit c <=? sz | None => false end
+      then n :: cl else cl
+  | EFull n _ | EDisconnect n => filter (fun m => negb (m =? n)) cl
+  | ECollect => cl
+  end.
+Fixpoint clobbered_size (c : cfg) (v : N) (r : srep) (cl : list N) (es : list event) : list N :=
+  match es with
+  | [] => cl
+  | e :: es' => clobbered_size c v (srstep r e) (cl_step c v r cl e) es'
+  end.
+Definition trigger_clobber_size_v (c : cfg) (es : list event) (v : N) : bool :=
+  match clobbered_size c v [] [] es with [] => false | _ => true end.
